@@ -189,6 +189,8 @@ type ttxHeader struct {
 	Subtitle bool  `json:"subtitle"`
 	Erase    bool  `json:"erase"`
 	Serial   bool  `json:"serial"`
+	// Newsflash (C5): another kind of boxed page, not a subtitle page
+	Newsflash bool `json:"newsflash,omitempty"`
 	// National option bits C12, C13, C14 as the standard's table lists them
 	C12 uint8 `json:"c12"`
 	C13 uint8 `json:"c13"`
@@ -202,6 +204,9 @@ func headerUnit(h ttxHeader, id byte) []byte {
 	}
 	if h.Subtitle {
 		c6 = 8
+	}
+	if h.Newsflash {
+		c6 |= 4
 	}
 	if h.Serial {
 		c11 = 1
@@ -480,7 +485,7 @@ func (s ttxStream) render() ([]byte, []ttxExpCue) {
 	if s.LeadIn > 0 {
 		// a PES on the teletext PID before the first instance: stuffing, and a page without the subtitle flag that
 		// must not be picked when the page is auto-detected (nor contribute when it is given)
-		early := ttxHeader{Mag: s.Mag, Tens: (s.Tens + 3) % 10, Units: (s.Units + 1) % 10, Serial: s.Serial}
+		early := ttxHeader{Mag: s.Mag, Tens: (s.Tens + 3) % 10, Units: (s.Units + 1) % 10, Serial: s.Serial, Newsflash: s.LeadIn%2 == 0}
 		send(ttxPID, s.LeadIn, stuffingUnit(), headerUnit(early, 0x03), rowUnit(s.Mag, 3, append(append([]byte{0x0b, 0x0b}, "NOT A SUBTITLE PAGE"...), 0x0a, 0x0a), nil, 0x03))
 	}
 	if s.OtherPIDFirst {
